@@ -188,21 +188,23 @@ Section RebuildProofs.
   Qed.
 
   (* ... and therefore outputs, graph and return code of the build phase *)
-  Theorem rebuild_equals_restart (g : G) (items : list item) :
+  Theorem rebuild_equals_restart (ao : bool) (g : G) (items : list item) :
     let w := fold_changes (change_is_relevant below matches g) (relevant_paths_under below g) items ws_empty in
     let g1 := fail_watch' g in
     NoDup (map f_path (g_files g)) -> matches_sound g -> matches_unowned g ->
     no_step_in_flight g -> fail_keeps_relevant g ->
     env_unchanged g1 ->
     WellFormed below matches g1 ->
-    CoversFS commit_attached_only g1 (ws_updated w) (ws_deleted w) ->
-    (commit_attached_only = false -> detached_unmatched below matches g1) ->
-    watch_rebuild R on_action on_nglob_change mark_step_pending hash_fs matches universe outcome build g items
+    CoversFS ao g1 (ws_updated w) (ws_deleted w) ->
+    (ao = false -> detached_unmatched below matches g1) ->
+    option_map build
+      (watch_rebuild_pre_with R mark_step_pending matches
+         (watch_commit_gen below on_action on_nglob_change hash_fs matches universe ao) g items)
     = restart R on_action on_nglob_change mark_step_pending hash_fs exists_fs matches universe getenv outcome build g.
   Proof.
-    intros w g1 ND MS MU NF FK EU WF CF DU. unfold watch_rebuild, restart, watch_rebuild_pre, watch_commit.
+    intros w g1 ND MS MU NF FK EU WF CF DU. unfold restart, watch_rebuild_pre_with.
     fold w. fold g1. f_equal.
-    apply (rebuild_pre_equals_restart_pre commit_attached_only g items); assumption.
+    apply (rebuild_pre_equals_restart_pre ao g items); assumption.
   Qed.
 End RebuildProofs.
 
